@@ -24,6 +24,7 @@ from pyvc import core
 from pyvc import heap as H
 
 LEVEL = "other"
+STANDIN_ALWAYS_THOROUGH = True      # its large bound takes seconds: used at both tiers
 EXPLANATION = ("MIXED. Proved by SMT over byte strings of unbounded length: the read side's representation invariant consumed ++ buffer == delivered through _consume, _read_to_buffer and the "
                "_read_to_buffer_loop (loop invariant); _find_read_pos equal to the specification function of each kind of request incl. the max_bytes refusals; _finish_read resolving the future with "
                "exactly the consumed bytes. The bytearray and the scratch buffer are replaced by contract stubs (their six operations on an abstract byte string). read_into's buffer swap, regex "
